@@ -137,6 +137,8 @@ def line_limit(ctx):
             START, END = tr.lin(("deref", ("arg", 2))), tr.lin(("arg", 3))
             st.add_le(END - Lin.const(bs))          # the receive window (checked below) keeps end <= BUFFER_SIZE
             st.add_le(START.scale(-1))
+            if any(e[0] == "call" and last_seg(e[3]) == "index" and self_field(e[4][2][0], "buffer") for e in lf.events):
+                st.add_le(START - END)      # buffer[start..end] was sliced on this path (it is what was searched): start <= end
 
             def decided(expr):
                 if st.entails_eq(expr):
@@ -152,7 +154,18 @@ def line_limit(ctx):
             both.add_eq(END - Lin.const(bs))
             both.sharpen()
             # undetermined atoms are fine when the conditions already exclude "start == 0 and end == BUFFER_SIZE"
-            undecided = not toolong and not both.inconsistent()
+            excluded = both.inconsistent()
+            if not excluded:
+                # ... also as a refuted conjunction: `(start, end) == (0, BUFFER_SIZE)` / `end.checked_sub(start) == Some(BUFFER_SIZE)`
+                # found false, while start == 0 and end == BUFFER_SIZE would make every one of its equalities true
+                for e in lf.events:
+                    if e[0] != "cond" or truth(e[4]) is None:
+                        continue
+                    x = look(e[3])
+                    pe = tr.pair_equalities(x)
+                    if pe is not None and truth(e[4]) != (last_seg(x[1]) == "eq") and all(both.entails_eq(a_ - b_) for a_, b_ in pe):
+                        excluded = True
+            undecided = not toolong and not excluded
             is_err = False
             if rk[0] == "Err":
                 e = look(rk[1])
